@@ -529,6 +529,8 @@ class Interp:
         if ci.is_enum():
             # Enum(value) lookup
             if len(args) == 1:
+                if isinstance(args[0], EnumVal) and args[0].cls is ci:
+                    return args[0]          # Enum(member) is the member
                 for m in self.enum_members(ci):
                     if m.value == args[0]:
                         return m
@@ -1139,6 +1141,10 @@ class Interp:
     def iterate(self, it, where_=""):
         if isinstance(it, _LazyGen):
             return self._drained(it)
+        if isinstance(it, _OneShot):
+            items = list(it)          # a one-shot iterator handed in by a harness: what has been walked is gone
+            del it[:]
+            return items
         if isinstance(it, (list, tuple, set, frozenset)):
             return list(it)
         if isinstance(it, dict):
@@ -1769,7 +1775,12 @@ class Interp:
             stp = self.eval(e.slice.step, env, module) if e.slice.step else None
             if isinstance(c, Unknown) or any(isinstance(x, Unknown) for x in (lo, hi, stp)):
                 return Unknown(f"{_sym(c)}[{'' if lo is None else _sym(lo)}:{'' if hi is None else _sym(hi)}]")
-            return c[lo:hi:stp]
+            try:
+                return c[lo:hi:stp]
+            except TypeError:
+                if isinstance(c, (Func, Obj, BoundBuiltin, ClassRef, ExtRef)) or _opaque(c):
+                    return Unknown(f"{_sym(c)}[{'' if lo is None else _sym(lo)}:{'' if hi is None else _sym(hi)}]")
+                raise Imprecise(f"slice of {type(c).__name__} at {module.rel}:{e.lineno}")
         k = self.eval(e.slice, env, module)
         return self._getitem(c, k, f"{module.rel}:{e.lineno}")
 
@@ -1937,6 +1948,8 @@ class Interp:
                 raise PyRaise(ExcVal("SyntaxError", (str(ex),)))
             except (ValueError, RecursionError, MemoryError) as ex:
                 raise PyRaise(ExcVal(type(ex).__name__, (str(ex),)))
+        if name in ("types.MappingProxyType", "MappingProxyType") and len(args) == 1 and isinstance(args[0], dict):
+            return args[0]          # a read-only view: the same entries (writes through a view do not occur in analysed code)
         if name in ("ast.iter_child_nodes", "ast.walk", "ast.iter_fields", "ast.dump", "ast.unparse") and len(args) >= 1 and isinstance(args[0], ast.AST) and not kwargs:
             # structure of a concrete syntax tree: the host module is the reference
             r_ = getattr(ast, name.split(".", 1)[1])(*args)
@@ -2401,6 +2414,12 @@ class Interp:
                 return isinstance(v, (int, float, complex))
             if n in ("Mapping", "MutableMapping"):
                 return isinstance(v, dict)
+            if n in ("Collection", "Iterable", "Sized", "Container", "Reversible") and not isinstance(v, (int, float, bool, type(None))):
+                return isinstance(v, (list, tuple, set, frozenset, dict, str, bytes, range)) or self.fresh("isinstance")
+            if n in ("Set", "AbstractSet", "MutableSet") and (cls.name.startswith(("collections.abc", "typing", "abc")) or cls.name in ("Set", "AbstractSet", "MutableSet")):
+                return isinstance(v, (set, frozenset))
+            if n == "Hashable":
+                return not isinstance(v, (list, dict, set))
             if n in ("Sequence",):
                 return isinstance(v, (list, tuple, str))
             if n in ("Callable",):
@@ -2620,6 +2639,10 @@ class Interp:
             if name == "clear":
                 recv.clear()
                 return None
+        if isinstance(recv, set) and name in ("update", "difference_update", "intersection_update") and not any(isinstance(x, Unknown) for x in args):
+            for x in args:
+                getattr(recv, name)(self.iterate(x) if not isinstance(x, (set, frozenset)) else x)
+            return None
         if isinstance(recv, (set, frozenset)):
             if name in ("issubset", "issuperset", "union", "intersection", "difference", "copy", "isdisjoint"):
                 a = [set(self.iterate(x)) if not isinstance(x, (set, frozenset)) else x for x in args]
@@ -2657,6 +2680,11 @@ class Interp:
 class _Iter(list):
     """an iterator over already-computed items (iter(x), a drained generator): consumed from the front"""
     retval = None
+
+
+class _OneShot(_Iter):
+    """an iterator a harness passes where the code expects any iterable (a generator, map(...), iter(...)): consumed by
+    the first walk over it"""
 
 
 class _GenClose(BaseException):
